@@ -156,6 +156,49 @@ func childMain(args []string) {
 				}
 				b, _ := json.Marshal(o)
 				os.WriteFile("obs_live.json", b, 0o644)
+				// the node lives on: continue with a fork switch (remove the tip, add the other
+				// alternative) from whichever list the chain is in; whatever the failed operation
+				// left behind (queued writes, counters) must not surface later
+				if os.Getenv("VERIF_FAULT_CONT") != "" && (len(o.PreFails) == 0 || len(o.PostFails) == 0) {
+					done := append([]string{}, hist[:i]...)
+					cm := &refGroups{list: before}
+					if len(o.PreFails) != 0 { // the operation took effect
+						done = append(done, op)
+						cm = mm
+					}
+					added := 0
+					for _, d := range done {
+						switch d {
+						case opAdd0, opAdd1:
+							added++
+						case opRm:
+							added--
+						case opRm2:
+							added -= 2
+						}
+					}
+					var cont []string
+					if added > 0 {
+						cont = append(cont, opRm)
+					}
+					cont = append(cont, opAdd1, opAdd0)
+					co := crashObsOut{}
+					for _, cop := range cont {
+						cs := applyOp(cm, cop)
+						if !cs.Accepted {
+							co.PostFails = append(co.PostFails, fmt.Sprintf("continuation op %s after the failed %s not accepted: %s %s", cop, op, cs.Err, cs.Panic))
+							break
+						}
+						done = append(done, cop)
+					}
+					for _, f := range checkAgainst(cm.list) {
+						co.PostFails = append(co.PostFails, fmt.Sprintf("%s: %s", clauseName[f.Clause], f.Msg))
+					}
+					co.PostLen = len(cm.list)
+					cb, _ := json.Marshal(co)
+					os.WriteFile("obs_cont.json", cb, 0o644)
+					os.WriteFile("cont_ops", []byte(strings.Join(done, ",")), 0o644)
+				}
 				os.Exit(faultHandled)
 			}
 			if !s.Accepted {
@@ -167,6 +210,25 @@ func childMain(args []string) {
 		out.Writes = crash.Count()
 		out.Trace = crash.Trace()
 		b, _ := json.Marshal(out)
+		os.WriteFile(args[2], b, 0o644)
+		os.Exit(0)
+	case "observe-ops": // observe-ops <ops,csv> <out>: restart and compare with the list these operations produce
+		if err := node.Boot(node.ForksAllOn, true); err != nil {
+			fmt.Fprintln(os.Stderr, "boot:", err)
+			os.Exit(3)
+		}
+		setGenesisList()
+		m := newModel()
+		for _, op := range strings.Split(args[1], ",") {
+			if op != "" {
+				pureStep(m, op)
+			}
+		}
+		o := crashObsOut{PostLen: len(m.list)}
+		for _, f := range checkAgainst(m.list) {
+			o.PostFails = append(o.PostFails, fmt.Sprintf("%s: %s", clauseName[f.Clause], f.Msg))
+		}
+		b, _ := json.Marshal(o)
 		os.WriteFile(args[2], b, 0o644)
 		os.Exit(0)
 	case "observe": // observe <hist,csv> <step> <out>   (boot = restart over the existing directory)
@@ -260,6 +322,35 @@ func faultPoint(c *fw.Ctx, hist []string, csv string, p int, ro *crashRunOut, se
 		return
 	}
 	judge("obs.json", "restart")
+	// second run of the same fault, now letting the node go on after the failed operation
+	// (fork switch from the resulting list)
+	os.RemoveAll(d)
+	os.MkdirAll(d, 0o755)
+	if code, _ := runCrashChild(d, []string{fmt.Sprintf("VERIF_FAIL_AT=%d", p), "VERIF_FAULT_CONT=1"}, "run", csv, "out.json"); code != faultHandled {
+		return
+	}
+	if cb, err := os.ReadFile(filepath.Join(d, "obs_cont.json")); err == nil {
+		var co crashObsOut
+		json.Unmarshal(cb, &co)
+		ops, _ := os.ReadFile(filepath.Join(d, "cont_ops"))
+		if len(co.PostFails) > 0 {
+			c.Violation("C19:fault:later-ops-inconsistent:live:"+where, "write-error",
+				fmt.Sprintf("history %v: physical write %d (%s of op %d %s) returned an I/O error; the node went on with %s and the chain is then inconsistent in the running process: %v", hist, p, where, step, hist[step], ops, co.PostFails), cs)
+		} else {
+			code, out = runCrashChild(d, nil, "observe-ops", string(ops), "obs_cont_restart.json")
+			var ro2 crashObsOut
+			rb, _ := os.ReadFile(filepath.Join(d, "obs_cont_restart.json"))
+			json.Unmarshal(rb, &ro2)
+			if code != 0 {
+				c.Violation("C19:fault:later-ops-restart-died:"+where, "write-error", fmt.Sprintf("history %v: I/O error at write %d (%s), continuation %s, then the node cannot restart: %s", hist, p, where, ops, out), cs)
+			} else if len(ro2.PostFails) > 0 {
+				c.Violation("C19:fault:later-ops-inconsistent:restart:"+where, "write-error",
+					fmt.Sprintf("history %v: physical write %d (%s of op %d %s) returned an I/O error; the node went on with %s; after a restart the chain is not the list those operations produce: %v", hist, p, where, step, hist[step], ops, ro2.PostFails), cs)
+			} else {
+				c.Outcome("write-error->continuation consistent")
+			}
+		}
+	}
 	c.Count("write_error_points", 1)
 	c.Nontrivial(fmt.Sprintf("fault|%s|%d", csv, p))
 }
